@@ -76,3 +76,24 @@ Theorem C10_identity : forall s bounded trait_,
   (forall p v, In (p, v) s -> v = VIdentity) -> subst_key s bounded trait_ = [(bounded, trait_)].
 Proof. exact subst_key_identity. Qed.
 Print Assumptions C10_identity.
+
+(* substituting the parameters back yields exactly the original bound, for every
+   well-formed substitution and every key that is re-expressible over the general header
+   ([stable_key] = the crate's `is_expressible`, fix F1; outside it the key is never used) *)
+Theorem C10_roundtrip : forall s bounded trait_,
+  wf_subsb s = true -> stable_key s bounded trait_ = true ->
+  forall rb rt, In (rb, rt) (subst_key s bounded trait_) ->
+  apply s rb = bounded /\ apply s rt = trait_.
+Proof.
+  intros s b t W. exact (subst_key_roundtrip s b t (wf_subsb_sound s W)).
+Qed.
+Print Assumptions C10_roundtrip.
+
+(* non-vacuity: (_ŠČ0, _ŠČ1) over (Vec<_ŠČ0>, Vec<_ŠČ0>), key Option<Vec<_ŠČ0>>: D<Vec<_ŠČ0>> *)
+Example C10_nonvacuous :
+  let s := [(pid "0", VType (tC "Vec" [gty (tP "0")])); (pid "1", VType (tC "Vec" [gty (tP "0")]))] in
+  let b := tC "Option" [gty (tC "Vec" [gty (tP "0")])] in
+  let t := path1 "D" (aangle [gty (tC "Vec" [gty (tP "0")])]) in
+  wf_subsb s = true /\ stable_key s b t = true /\ List.length (subst_key s b t) = 4.
+Proof. vm_compute. repeat split. Qed.
+Print Assumptions C10_nonvacuous.
